@@ -14,15 +14,14 @@ def post_c08(c):
     drawing, the mean number of completed actions per case must stay near -rapid.steps=S
     (skips counted as steps would give S/2).  Margin > 8 sigma, see DESIGN.md C08."""
     out = []
-    for S in (5, 30):
-        key = "steps=%d" % S
+    for S, key in ((5, "steps=5"), (30, "steps=30"), (20, "steps=40short")):
         cases = c.get("stat_cases:" + key, 0)
         if cases < 3000:
             continue
         mean = c.get("stat_completed:" + key, 0) / cases
         c["stat_mean_completed_x100:" + key] = int(mean * 100)
         if not (0.8 * S <= mean <= 1.25 * S):
-            out.append(("mean number of completed actions per case is %.2f with -rapid.steps=%d over %d cases (skipped actions counted as steps?)" % (mean, S, cases),
+            out.append(("mean number of completed actions per case is %.2f where %d are expected (%s) over %d cases (skipped actions counted as steps? -short not halving exactly once?)" % (mean, S, key, cases),
                         "c08/step-mean", {"steps": S, "cases": cases, "mean_completed": mean,
                                           "mean_attempts": c.get("stat_attempts:" + key, 0) / cases}))
     return out
